@@ -409,6 +409,8 @@ def gen_cases(draw):
     case["tab"] = draw(st.lists(st.tuples(st.integers(0, n - 2), st.sampled_from([0, 0, 1, -1])).map(list),
                                 min_size=0, max_size=6))
     case["scalar"] = draw(st.booleans())
+    if draw(st.integers(0, 29)) == 0:
+        case["bulk"] = {"n": draw(st.sampled_from([10001, 65537, 100001, 200001, 300000])), "seed": draw(SEED)}
     return case
 
 
@@ -469,6 +471,9 @@ def check_generator(case, ctx):
         if off == 0:
             tab_at[len(u)] = k
         u.append(v)
+    if case.get("bulk"):
+        # a large request in one call (deviates expanded from a drawn seed, in random order)
+        u = u + np.random.Generator(np.random.PCG64(case["bulk"]["seed"])).uniform(0.0, 1.0, case["bulk"]["n"]).tolist()
     u = np.array(u, dtype="f8")
     stub.u = u
     stub.calls = []
